@@ -1,5 +1,5 @@
 """Property -> rules (DESIGN.md section 4)."""
-from .rules import live, walk, exc
+from .rules import live, walk, exc, graph, graph2
 
 SW, GR, OP, BF = 'dsw.spiderweb.', 'dsw.graphized.', 'dsw.operation.', 'dsw.biofilter.'
 
@@ -39,7 +39,54 @@ def c06(ctx):
     exc.r_typed_dispatch(ctx, fqs, floor=2)
 
 
+def c02(ctx):
+    graph.r_mask(ctx)
+    gen = [SW + 'connect_valid_graph', SW + 'connect_coding_graph', GR + 'get_complete_accessor']
+    graph2.r_arc(ctx, gen, floor=4)
+    graph.r_shift(ctx, ('obtain_latters',))
+    graph.r_kplumb(ctx, [SW + 'find_vertices', SW + 'connect_valid_graph', SW + 'connect_coding_graph',
+                         GR + 'get_complete_accessor'], floor=6)
+    live.r_live(ctx, [SW + 'encode'], floor=2)
+    walk.r_walk(ctx, [SW + 'encode'], {SW + 'encode': 2})
+    graph2.r_ord_ctor(ctx)
+
+
+def c03(ctx):
+    exc.r_exc(ctx, SW + 'connect_coding_graph', {'ValueError'}, floor=3)
+    graph.r_kplumb(ctx, [SW + 'connect_coding_graph'], floor=4)
+    graph.r_shift(ctx)
+    graph2.r_arc(ctx, [SW + 'connect_coding_graph'], floor=3)
+    live.r_live(ctx, [SW + 'connect_coding_graph', GR + 'obtain_vertices'], floor=4)
+    graph2.r_ord_threshold(ctx)
+    graph2.r_fix(ctx)
+    graph2.r_arb(ctx)
+
+
+def c11(ctx):
+    graph.r_iface(ctx)
+    graph.r_mask(ctx)
+    graph2.r_ord_empty(ctx, SW + 'find_vertices')
+    graph2.r_ord_empty(ctx, SW + 'connect_valid_graph')
+    graph2.r_arc(ctx, [SW + 'connect_valid_graph'], floor=1)
+    graph.r_shift(ctx, ('obtain_latters',))
+    graph.r_kplumb(ctx, [SW + 'find_vertices', SW + 'connect_valid_graph'], floor=2)
+    exc.r_exc(ctx, SW + 'find_vertices', {'ValueError'}, floor=1)
+    exc.r_exc(ctx, SW + 'connect_valid_graph', {'ValueError'}, floor=2)
+    exc.r_typed_dispatch(ctx, [SW + 'find_vertices'], floor=1)
+
+
+def c13(ctx):
+    graph.r_shift(ctx, with_latter=True)
+    graph.r_kplumb(ctx, None, floor=11)
+    graph2.r_arc(ctx, ctx.p.funcs.keys(), floor=8, derived=False)
+    live.r_alpha(ctx, ctx.p.funcs.keys(), floor=10)
+
+
 PROPERTIES = {
+    'C02': c02,
+    'C03': c03,
+    'C11': c11,
+    'C13': c13,
     'C01': c01,
     'C05': c05,
     'C06': c06,
